@@ -7,4 +7,12 @@ def section():
     names = list(dotdict.__invalid_keys__)
     assert names and all(isinstance(n, str) and n.isidentifier() for n in names)
     items = ", ".join('"%s".toList' % n for n in names)
-    return f"def dotdictInvalidKeys : List (List Char) := [{items}]\n"
+    import keyword
+    # attribute names that exist on the classes an index expression can meet (an attribute access with
+    # such a name yields a method, not a stored value: outside the model), and Python's keywords
+    attrs = sorted({a for t in (int, list, dotdict) for a in dir(t) if not a.startswith("__")})
+    kws = sorted(set(keyword.kwlist) | {"None", "True", "False"})
+    fmt = lambda ns: ", ".join('"%s".toList' % n for n in ns)
+    return (f"def dotdictInvalidKeys : List (List Char) := [{items}]\n"
+            f"def evalAttrBlacklist : List (List Char) := [{fmt(attrs)}]\n"
+            f"def pyKeywords : List (List Char) := [{fmt(kws)}]\n")
